@@ -76,6 +76,8 @@ inductive Term (V : Type) where
   | index   (key : V) (t : Term V)
   | call    (method : String) (args : List V) (t : Term V)
   | flatten (id : VarId) (t : Term V)
+  /-- a `Concatenate` node: one value, the list of all inner elements of `t` over all bindings -/
+  | concat  (id : VarId) (t : Term V)
   deriving Inhabited
 
 /-- Ids of the `Variable` leaves of a term (`_unique_variables_` without literals). -/
@@ -86,6 +88,7 @@ def Term.vars {V : Type} : Term V → List VarId
   | .index _ t => t.vars
   | .call _ _ t => t.vars
   | .flatten _ t => t.vars
+  | .concat _ t => t.vars
 
 /-- Ids a term binds when evaluated: its variables and its flatten nodes. -/
 def Term.binds {V : Type} : Term V → List VarId
@@ -95,6 +98,7 @@ def Term.binds {V : Type} : Term V → List VarId
   | .index _ t => t.binds
   | .call _ _ t => t.binds
   | .flatten id t => id :: t.binds
+  | .concat id _ => [id]
 
 /-- Condition-position expressions after construction (what `entity.py`/`symbolic.py` build). -/
 inductive Cond (V : Type) where
